@@ -345,6 +345,41 @@ func init() {
 		}
 		return nil
 	})
+	// ---- WaitGroup (go-statement mode): a counter per WaitGroup; Done and Wait are edges of the schedule query ----
+	wgAdd := func(in *Interp, p Ptr, n int, site string) {
+		if in.wgCount == nil {
+			in.wgCount = map[string]int{}
+		}
+		in.wgCount[locOf(p)] += n
+		if in.wgCount[locOf(p)] < 0 {
+			in.goPanic("sync: negative WaitGroup counter")
+		}
+		if n < 0 && in.access != nil {
+			in.access.syncEvent("done", locOf(p), site, 0)
+		}
+	}
+	reg("(*sync.WaitGroup).Add", "WaitGroup counter", func(in *Interp, fn *ssa.Function, a []Value) Value {
+		n := in.term(a[1], "WaitGroup.Add")
+		if !n.IsConst() {
+			in.unsupported("symbolic WaitGroup delta")
+		}
+		wgAdd(in, in.ptr(a[0], "WaitGroup.Add"), int(n.i), "WaitGroup.Add")
+		return nil
+	})
+	reg("(*sync.WaitGroup).Done", "WaitGroup counter; edge Done -> Wait", func(in *Interp, fn *ssa.Function, a []Value) Value {
+		wgAdd(in, in.ptr(a[0], "WaitGroup.Done"), -1, "WaitGroup.Done")
+		return nil
+	})
+	reg("(*sync.WaitGroup).Wait", "returns when the counter is zero (threads run to completion at their go statement); edge Done -> Wait", func(in *Interp, fn *ssa.Function, a []Value) Value {
+		p := in.ptr(a[0], "WaitGroup.Wait")
+		if in.wgCount[locOf(p)] != 0 {
+			in.goPanic("deadlock: WaitGroup.Wait with a counter that no thread will bring to zero")
+		}
+		if in.access != nil {
+			in.access.syncEvent("wait", locOf(p), "WaitGroup.Wait", 0)
+		}
+		return nil
+	})
 	atomicAdd := func(in *Interp, fn *ssa.Function, a []Value) Value {
 		p := in.ptr(a[0], "atomic.Add")
 		if in.access != nil {
@@ -539,7 +574,7 @@ func harnessIntrinsic(fn *ssa.Function) intrinsicFn {
 			t, ok := a[0].(*Term)
 			return in.tb.Bool(ok && t.IsConst())
 		}
-	case "vRandUnscripted":
+	case "vRandUnscripted", "vParallelSection":
 		return func(in *Interp, fn *ssa.Function, a []Value) Value { return nil }
 	case "vRealModel":
 		return func(in *Interp, fn *ssa.Function, a []Value) Value { return in.tb.Bool(!in.tb.fmode) }
